@@ -511,6 +511,38 @@ pub fn run(file: &str) {
                                 None => data.push("NONE".to_string()),
                             }
                         }
+                        // Snapshot::matched_items(range): the ranged iterator must hand out exactly the items of
+                        // matches()[range] (all four bound shapes, ExactSizeIterator::len, the reversed iterator);
+                        // skipped when a placeholder is left in the matches (reading it panics, reported as `placeholder`)
+                        let mut mi = "ok".to_string();
+                        if !data.iter().any(|d| d == "PH" || d == "NONE") {
+                            let n = snap.matched_item_count();
+                            let want = |a: usize, b: usize| -> Vec<String> { data[a..b].to_vec() };
+                            let mut bad = |what: &str, got: Vec<String>, exp: Vec<String>| {
+                                if got != exp && mi == "ok" {
+                                    mi = format!("BAD({}:got[{}]want[{}])", what, got.join("|"), exp.join("|"));
+                                }
+                            };
+                            let all: Vec<String> = snap.matched_items(..).map(|it| format!("{}", it.data)).collect();
+                            bad("..", all, want(0, n as usize));
+                            if snap.matched_items(..).len() != n as usize {
+                                bad("len", vec![format!("{}", snap.matched_items(..).len())], vec![format!("{}", n)]);
+                            }
+                            if n >= 1 {
+                                let (a, b) = (n / 3, n - n / 4);
+                                let r: Vec<String> = snap.matched_items(a..b).map(|it| format!("{}", it.data)).collect();
+                                bad("a..b", r, want(a as usize, b as usize));
+                                let r: Vec<String> = snap.matched_items(a..=n - 1).map(|it| format!("{}", it.data)).collect();
+                                bad("a..=last", r, want(a as usize, n as usize));
+                                let r: Vec<String> = snap.matched_items(..b).rev().map(|it| format!("{}", it.data)).collect();
+                                let mut e = want(0, b as usize);
+                                e.reverse();
+                                bad("rev(..b)", r, e);
+                                let r: Vec<String> =
+                                    snap.matched_items((std::ops::Bound::Excluded(a), std::ops::Bound::Unbounded)).map(|it| format!("{}", it.data)).collect();
+                                bad("(a,..)", r, want((a + 1).min(n) as usize, n as usize));
+                            }
+                        }
                         let ptxt = |c: usize| -> String {
                             let v: Vec<String> = snap.pattern().column_pattern(c).atoms.iter().map(|a| format!("{}{}", if a.negative { "!" } else { "" }, a.needle_text())).collect();
                             v.join(" ")
@@ -527,7 +559,7 @@ pub fn run(file: &str) {
                             })
                             .collect();
                         obs.push(format!(
-                            "O p={} c={} m={} d={} inj={} n={} u={} g={} k={}",
+                            "O p={} c={} m={} d={} inj={} n={} u={} g={} k={} mi={}",
                             pid,
                             snap.item_count(),
                             if ms.is_empty() { "-".to_string() } else { ms.join(",") },
@@ -536,7 +568,8 @@ pub fn run(file: &str) {
                             notifies.load(Ordering::SeqCst),
                             nucleo::verif::take_uninit_reads(),
                             gi.join(","),
-                            kcols
+                            kcols,
+                            mi
                         ));
                     }
                 }
